@@ -105,6 +105,7 @@ TABLE = [
     ("pkcs5.unpad-range", "<Pkcs5 as RawPadding>::raw_unpad", "conds", r"^Gt\(.+ as usize,len\((arg1|\$\d+)\)\)$", 1, "RFC 8018 / ISO 32000-1 7.6.2: the padding length n is valid for 1 <= n <= block size (a whole block of padding is legal): rejected only if n > block size"),
     ("pkcs5.unpad-zero", "<Pkcs5 as RawPadding>::raw_unpad", "conds", r"^Eq\(.+,0\)$", 1, "a padding length of 0 is invalid"),
     ("alg5.pad", "PasswordAlgorithm::compute_hashed_user_password_r3_r4", "calls", r"^update\(.+, encryption::algorithms::PAD_BYTES\)$", 1, "Algorithm 5(b): MD5 of the padding string"),
+    ("alg5.round-key-length", "PasswordAlgorithm::compute_hashed_user_password_r3_r4", "calls", r"^(?:new|encrypt)\(.*from_elem\(0,len\(.*compute_file_encryption_key_r4\(", 1, "Algorithm 5(e): the key of each of the 19 rounds is the file encryption key XOR the counter, byte for byte: exactly as long as the file encryption key (n bytes, not 16)"),
     ("alg5.rc4-19-up", "PasswordAlgorithm::compute_hashed_user_password_r3_r4", "ranges", r"^new\(1,19\)$", 1, "Algorithm 5(e): RC4 with keys XOR 1 to 19"),
     ("alg1.objnum-3le", "<Rc4CryptFilter as CryptFilter>::compute_key", "calls", r"^index\(to_le_bytes\(arg3\.0\), RangeTo::RangeTo\{3\}\)$", 1, "Algorithm 1(b): low-order 3 bytes of the object number, low-order byte first"),
     ("alg1.gen-2le", "<Rc4CryptFilter as CryptFilter>::compute_key", "calls", r"^index\(to_le_bytes\(arg3\.1\), RangeTo::RangeTo\{2\}\)$", 1, "Algorithm 1(b): low-order 2 bytes of the generation number, low-order byte first"),
@@ -424,6 +425,9 @@ def run(ctx):
                 % ((sd[0], sd[2][:120]) if sd else ("none", "none")))
     revision_dispatch(ctx, F)
     password_truncation(ctx, F)
+    # Algorithms 2 and 3 convert the password with PDFDocEncoding: the table is the published one
+    import prop_c16
+    prop_c16.pdfdoc_table(ctx, F)
     # Algorithm 2(d) / 13 hash the P entry *of the file*: the permissions kept by PasswordAlgorithm are from_bits_truncate(P) of the
     # value read, with nothing ORed in or masked out on the way (a "normalised" P derives another key than the file's writer did)
     tf = F.fn("<PasswordAlgorithm as TryFrom>::try_from")
